@@ -194,6 +194,98 @@ fn orch_multi_helper(mode: u8, cap: usize, helpers: usize, release_order: u8, ou
     follow_up(map, &what)
 }
 
+/// O3: helpers that join through `help_transfer` (a writer meets a forwarding marker while the
+/// resize is kept open by a frozen helper), then everybody is released.
+fn orch_help_transfer(mode: u8, late_writers: usize, out: &mut Outcome) -> Result<(), String> {
+    let what = format!("help_transfer orchestration (hasher {}, {late_writers} late writers)", mode_name(mode));
+    let map: Arc<UMap> = Arc::new(HashMap::with_capacity_and_hasher(170, HB::new(mode))); // 256 bins, threshold 192
+    fill(&map, 0..191);
+    hook::events_enable(true);
+    let _ = hook::events_take();
+    // the initiator stops right after initiating ...
+    let m = map.clone();
+    let ini = Actor::spawn("initiator", 1, |g| g.arm_site(fvf::EV_RESIZE_INITIATED, 1), move || {
+        let g = m.guard();
+        m.insert(1_000_000, 1, &g);
+    });
+    if !ini.wait_frozen_or_done(10_000)? {
+        return Err(format!("{what}: no resize initiated"));
+    }
+    // ... a helper joins through add_count. Its first claim yields i == n, which `transfer`
+    // treats as "nothing left", so it leaves and re-joins from add_count's loop; on that second
+    // visit it forwards bins and is stopped after the fifth: the resize is now open, the
+    // initiator has not even made its first claim
+    let m = map.clone();
+    let h1 = Actor::spawn("helper-add-count", 2, |g| g.arm_site(fvf::EV_BIN_FORWARDED, 5), move || {
+        let g = m.guard();
+        m.insert(2_000_000, 1, &g);
+    });
+    if !h1.wait_frozen_or_done(10_000)? {
+        return Err(format!("INCONCLUSIVE {what}: the helper finished without forwarding five bins"));
+    }
+    out.add("help_transfer_first_helper_joined_via_add_count", 1);
+    // which bins are forwarded now? late writers insert keys that land in forwarded bins
+    let forwarded: Vec<usize> = {
+        let g = map.guard();
+        let d = map.verif_dump(&g);
+        d.bins.iter().enumerate().filter(|(_, b)| matches!(b, fvf::BinDump::Moved)).map(|(i, _)| i).collect()
+    };
+    out.add("help_transfer_bins_forwarded_when_late_writers_arrive", forwarded.len() as u64);
+    let mut late = Vec::new();
+    for w in 0..late_writers {
+        let target_bin = forwarded.get(w % forwarded.len().max(1)).copied().unwrap_or(255);
+        // a key that hashes into that bin of the 256-bin table
+        let key = (0..u64::MAX).map(|x| 3_000_000 + x).find(|k| (hash_of(mode, *k) & 255) as usize == target_bin).unwrap();
+        let m = map.clone();
+        let a = Actor::spawn(&format!("late{w}"), 3 + w as u16, |g| g.arm_site(fvf::EV_HELPER_JOINED, 1), move || {
+            let g = m.guard();
+            m.insert(key, 1, &g);
+        });
+        if a.wait_frozen_or_done(10_000)? {
+            out.add("help_transfer_joins_orchestrated", 1);
+        }
+        late.push((a, key));
+    }
+    let order = late_writers % 2;
+    if order == 0 {
+        ini.gate.release();
+        h1.gate.release();
+    } else {
+        h1.gate.release();
+    }
+    for (a, _) in &late {
+        a.gate.release();
+    }
+    if order == 1 {
+        ini.gate.release();
+    }
+    ini.wait_done(10_000)?;
+    ini.join()?;
+    h1.wait_done(10_000)?;
+    h1.join()?;
+    let mut keys = Vec::new();
+    for (a, k) in late {
+        a.wait_done(10_000)?;
+        a.join()?;
+        keys.push(k);
+    }
+    hook::events_enable(false);
+    let ev = hook::events_take();
+    let st = quiescent_check(&map, &ev, &what)?;
+    out.add("orch_generations", st.generations);
+    out.add("orch_generations_multi_helper", st.multi_helper_generations);
+    out.max("orch_max_helpers_in_one_generation", st.max_helpers as f64);
+    let g = map.guard();
+    for k in (0..191).chain([1_000_000, 2_000_000]).chain(keys) {
+        if map.get(&k, &g).is_none() {
+            return Err(format!("{what}: key {k} is missing after the resize"));
+        }
+    }
+    drop(g);
+    let map = Arc::try_unwrap(map).map_err(|_| "map still shared".to_string())?;
+    follow_up(map, &what)
+}
+
 /// O2: a helper that validated an old table is delayed until the *next* generation's resize has
 /// been initiated, joins that one, and leaves; the initiator has left meanwhile.
 fn orch_stale_helper(out: &mut Outcome) -> Result<(), String> {
@@ -382,6 +474,23 @@ pub fn run(ctx: &Ctx) -> Outcome {
         if let Err(e) = orch_stale_helper(&mut out) {
             out.violate("c10/orch/stale-helper", e, Json::obj().with("check", Json::s("c10")).with("part", Json::s("stale-helper")));
             return out;
+        }
+    }
+    if ctx.shard == 2 % ctx.shards {
+        for mode in [IDENTITY, UNIFORM] {
+            for late in 1..=3usize {
+                out.evaluations += 1;
+                out.add("orch_help_transfer_runs", 1);
+                out.distinct.insert(fnv(fnv(FNV_OFFSET ^ 0x4e1, mode as u64), late as u64));
+                match guarded(|| orch_help_transfer(mode, late, &mut out)).unwrap_or_else(Err) {
+                    Ok(()) => {}
+                    Err(e) if e.contains("neither reached") || e.contains("did not finish within") || e.starts_with("INCONCLUSIVE") => out.inconclusive.push(e),
+                    Err(e) => {
+                        out.violate("c10/orch/help-transfer", e, Json::obj().with("check", Json::s("c10")).with("part", Json::s("help-transfer")).with("hasher", Json::s(mode_name(mode))).with("late_writers", Json::u(late)));
+                        return out;
+                    }
+                }
+            }
         }
     }
     // growth ladders from the smallest tables
